@@ -162,7 +162,7 @@ func ruleBuilderVisitsAll(w *core.World, r *core.Report, b *ssa.Function) {
 	bad := ""
 	var badPos token.Pos
 	seen := map[string]bool{}
-	okEnum := core.EnumPathsN(b.Blocks[0], 0, 400000, 2, func(p *core.Path) {
+	okEnum := core.EnumPathsN(b.Blocks[0], 0, 400000, core.Unroll, func(p *core.Path) {
 		ret, ok := p.End.(*ssa.Return)
 		if !ok || bad != "" {
 			return
@@ -475,7 +475,7 @@ func ruleRefusalReasons(w *core.World, r *core.Report, b *ssa.Function) {
 	var badPos token.Pos
 	n := 0
 	isKeySlot := isResultOf("pkg/redis.KeyToSlot", -1)
-	core.EnumPathsN(b.Blocks[0], 0, 400000, 2, func(p *core.Path) {
+	core.EnumPathsN(b.Blocks[0], 0, 400000, core.Unroll, func(p *core.Path) {
 		ret, ok := p.End.(*ssa.Return)
 		if !ok || bad != "" || core.IsNilConst(p.Resolve(ret.Results[1])) {
 			return
